@@ -139,6 +139,18 @@ func buildOps() {
 	dMsg2[0] ^= 1
 	addrD2 := addrD
 	addrD2[19] ^= 1
+	dSigNoHints := dSig
+	for i := len(dSigNoHints) - 83; i < len(dSigNoHints); i++ {
+		dSigNoHints[i] = 0
+	}
+	dSigLastRowEmpty := dSig
+	{
+		hs := dSigLastRowEmpty[len(dSigLastRowEmpty)-83:]
+		for j := int(hs[75+6]); j < 75; j++ {
+			hs[j] = 0
+		}
+		hs[75+7] = hs[75+6]
+	}
 	blobW4 := make([]byte, 4+32+133*32+4*32)
 	blobW256 := make([]byte, 4+32+34*32+4*32)
 	ops = []op{
@@ -198,6 +210,9 @@ func buildOps() {
 		{"dilithiumjs.GetDilithiumAddressFromPK/IsValid", func() string {
 			return digest(dilithiumjs.GetDilithiumAddressFromPK(hexPK), dilithiumjs.IsValidDilithiumAddress(hex.EncodeToString(addrD2[:])), xmssjs.IsValidXMSSAddress(hex.EncodeToString(addrX[:])), xmssjs.GetXMSSAddressFromPK(hexXPK))
 		}},
+		// the valid signature with its hints removed (a reused verification workspace that is not fully reset accepts these after the valid one)
+		{"dilithium.Verify(valid signature, hint section zeroed)", func() string { return fmt.Sprint(dilithium.Verify(dMsg, dSigNoHints, &dPK)) }},
+		{"dilithium.Verify(valid signature, last hint row emptied)", func() string { return fmt.Sprint(dilithium.Verify(dMsg, dSigLastRowEmpty, &dPK)) }},
 		// same entry point with other parameters at the same height (a parameter cache keyed on part of the parameters)
 		{"xmss.VerifyWithCustomWOTSParamW(4, sized blob)", func() string { return fmt.Sprint(xmss.VerifyWithCustomWOTSParamW(xMsg, blobW4, xPK, 4)) }},
 		{"xmss.VerifyWithCustomWOTSParamW(256, sized blob)", func() string { return fmt.Sprint(xmss.VerifyWithCustomWOTSParamW(xMsg, blobW256, xPK, 256)) }},
